@@ -119,3 +119,32 @@ Proof.
     + apply Hs; [lia|]. replace (S (lo + cnt)) with (lo + S cnt) by lia. exact H0.
     + intros i s Hi. apply Hs. lia.
 Qed.
+
+(* relational invariant between two runs of a counted loop *)
+Lemma for_loop_rel {A B} (R : nat -> A -> B -> Prop) lo cnt (f : nat -> A -> A) (g : nat -> B -> B) a b :
+  R lo a b -> (forall i a b, lo <= i < lo + cnt -> R i a b -> R (S i) (f i a) (g i b)) ->
+  R (lo + cnt) (for_loop lo cnt f a) (for_loop lo cnt g b).
+Proof.
+  intros H0 Hs. induction cnt as [|cnt IH].
+  - rewrite Nat.add_0_r. exact H0.
+  - rewrite !for_loop_S. replace (lo + S cnt) with (S (lo + cnt)) by lia.
+    apply Hs; [lia|]. apply IH. intros i x y Hi. apply Hs. lia.
+Qed.
+
+Lemma for_loop_ext {St} lo cnt (f g : nat -> St -> St) st :
+  (forall i s, lo <= i < lo + cnt -> f i s = g i s) -> for_loop lo cnt f st = for_loop lo cnt g st.
+Proof.
+  intro H. induction cnt as [|cnt IH]; [reflexivity|].
+  rewrite !for_loop_S. rewrite IH by (intros; apply H; lia). apply H. lia.
+Qed.
+
+Lemma for_down_rel {A B} (R : nat -> A -> B -> Prop) lo cnt (f : nat -> A -> A) (g : nat -> B -> B) a b :
+  R (lo + cnt) a b -> (forall i a b, lo <= i < lo + cnt -> R (S i) a b -> R i (f i a) (g i b)) ->
+  R lo (for_down lo cnt f a) (for_down lo cnt g b).
+Proof.
+  revert a b. induction cnt as [|cnt IH]; intros a b H0 Hs.
+  - rewrite Nat.add_0_r in H0. exact H0.
+  - rewrite !for_down_S. apply IH.
+    + apply Hs; [lia|]. replace (S (lo + cnt)) with (lo + S cnt) by lia. exact H0.
+    + intros i x y Hi. apply Hs. lia.
+Qed.
